@@ -214,11 +214,12 @@ def parse_prog(text, forms=''):
             b, j = go(i + 2 + n)
             h, k = go(j)
             return ('try', cs, b, h), k
-        if t == 'group':
+        if t in ('group', 'groupany'):
             n = int(toks[i + 1])
             nums = [int(x) for x in toks[i + 2:i + 2 + 2 * n]]
             b, j = go(i + 2 + 2 * n)
-            return ('group', tuple(zip(nums[0::2], nums[1::2])), b), j
+            ms = tuple(zip(nums[0::2], nums[1::2]))
+            return (('group', ms, b, 'any') if t == 'groupany' else ('group', ms, b)), j
         raise ValueError(text)
     p, _ = go(0)
     return p
